@@ -81,13 +81,13 @@ theorem allEv_cons {P : Ev → List Ev → Prop} {e : Ev} {evs : List Ev}
 /-- Induction principle: an invariant `Inv` of (state, recalculations so far) that holds initially
 and is preserved by every operation satisfying `Hop`, and a step fact `P` that follows from it,
 give `Inv` in every reachable state and `P` of every recalculation of every history. -/
-theorem events_all (timeout : Int) (Inv : St → List Ev → Prop) (Hop : Op → Prop)
+theorem events_all (timeout : Int) (fx : Bool) (Inv : St → List Ev → Prop) (Hop : Op → Prop)
     (P : Ev → List Ev → Prop)
-    (h0 : Inv (init timeout) [])
+    (h0 : Inv (init timeout fx) [])
     (hinv : ∀ s evs o, Hop o → Inv s evs → Inv (stepE (s, evs) o).1 (stepE (s, evs) o).2)
     (hP : ∀ s evs o e, Hop o → Inv s evs → (step s o).2 = some e → P e evs)
     (ops : List Op) (hops : ∀ o ∈ ops, Hop o) :
-    Inv (run timeout ops) (trace timeout ops) ∧ AllEv P (trace timeout ops) := by
+    Inv (run timeout ops fx) (trace timeout ops fx) ∧ AllEv P (trace timeout ops fx) := by
   unfold run trace runE
   suffices ∀ (ops : List Op) (p : St × List Ev), (∀ o ∈ ops, Hop o) → Inv p.1 p.2 → AllEv P p.2 →
       Inv (ops.foldl stepE p).1 (ops.foldl stepE p).2 ∧ AllEv P (ops.foldl stepE p).2 from
@@ -218,8 +218,8 @@ theorem invS_step {timeout : Int} (ht : 0 ≤ timeout) {s : St} {sp : Spec} (h :
     simp only [step, recalc, Spec.step]
     rw [h4, h1, h2, ← keep_put _ _ _ _ (by simp [fresh]; omega), keep_keep_fresh _ _ _ h3]
 
-theorem invS_run {timeout : Int} (ht : 0 ≤ timeout) (ops : List Op) :
-    InvS timeout (run timeout ops) (Spec.run ops) := by
+theorem invS_run {timeout : Int} (ht : 0 ≤ timeout) (ops : List Op) (fx : Bool) :
+    InvS timeout (run timeout ops fx) (Spec.run ops) := by
   have key : ∀ (ops : List Op) (p : St × List Ev) (sp : Spec), InvS timeout p.1 sp →
       InvS timeout (ops.foldl stepE p).1 (ops.foldl Spec.step sp) := by
     intro ops
@@ -290,5 +290,33 @@ theorem invA_step (s : St) (evs : List Ev) (o : Op) (hi : InvA s evs) :
   | peer id l => simpa [stepE, step] using hi.2
   | junk => simpa [stepE, step] using hi.2
   | reload c => simpa [stepE, step] using hi.2
+
+/-- in the repaired variant the thresholds in force are always ordered -/
+def InvF (s : St) (_ : List Ev) : Prop := s.fixed = true ∧ s.cfg.deact ≤ s.cfg.act
+
+theorem clampCfg_ordered (c : Cfg) : (clampCfg c).deact ≤ (clampCfg c).act := by
+  unfold clampCfg
+  split
+  · exact Nat.le_refl _
+  · omega
+
+theorem clampCfg_act (c : Cfg) : (clampCfg c).act = c.act ∧ (clampCfg c).mode = c.mode ∧
+    (clampCfg c).minDur = c.minDur ∧ (clampCfg c).deact = min c.deact c.act := by
+  unfold clampCfg
+  split
+  · refine ⟨rfl, rfl, rfl, ?_⟩; simp; omega
+  · refine ⟨rfl, rfl, rfl, ?_⟩; omega
+
+theorem invF_step (s : St) (evs : List Ev) (o : Op) (hi : InvF s evs) :
+    InvF (stepE (s, evs) o).1 (stepE (s, evs) o).2 := by
+  obtain ⟨hf, ho⟩ := hi
+  cases o with
+  | reload c =>
+    simp only [stepE, step, InvF, hf, if_true]
+    exact ⟨trivial, clampCfg_ordered c⟩
+  | recalc loc => exact ⟨hf, ho⟩
+  | adv d => exact ⟨hf, ho⟩
+  | peer id l => exact ⟨hf, ho⟩
+  | junk => exact ⟨hf, ho⟩
 
 end Refinery.Lemmas.StressRelief
